@@ -653,6 +653,12 @@ func feedAggs(target map[string]aggregator.AggregatorFunction, specs []aggSpec, 
 			continue
 		}
 		val, ok := lookupFieldValue(data, spec.inputField)
+		if ok && val == nil && (spec.aggType == aggregator.FirstValue || spec.aggType == aggregator.LastValue) {
+			// first_value / last_value report an explicit NULL of the first / last row,
+			// as the stream aggregator does (GroupAggregator.shouldAllowNullValues).
+			agg.Add(nil)
+			continue
+		}
 		if !ok || val == nil {
 			continue
 		}
